@@ -151,6 +151,42 @@ func p7SourceOf(name string) (*p7Source, error) {
 		s.der = append([]byte{}, d.CertData...)
 		s.cert = certFromPEMFile(repo + "/tests/data/signatures/secureboot/keys/PK/PK.pem")
 		s.others = []*x509.Certificate{A, certFromPEMFile(repo + "/tests/data/signatures/secureboot/keys/KEK/KEK.pem")}
+	case "fixture-sbvarsign-db", "fixture-kek-noattrs":
+		fn, cn := "db.auth", "KEK/KEK.pem"
+		if name == "fixture-kek-noattrs" {
+			fn, cn = "KEK.auth", "PK/PK.pem"
+		}
+		b, e := os.ReadFile(repo + "/tests/data/signatures/varsign/" + fn)
+		if e != nil {
+			return nil, e
+		}
+		d := projectDescriptor(b)
+		if !d.OK {
+			return nil, fmt.Errorf("cannot project %s", fn)
+		}
+		s.der = append([]byte{}, d.CertData...)
+		s.cert = certFromPEMFile(repo + "/tests/data/signatures/secureboot/keys/" + cn)
+		s.others = []*x509.Certificate{A, certFromPEMFile(repo + "/tests/data/signatures/secureboot/keys/db/db.pem")}
+	case "fixture-testsigned-noattrs":
+		s.der, err = os.ReadFile(repo + "/pkcs7/testdata/test.signed")
+		s.cert = certFromPEMFile(repo + "/tests/data/signatures/secureboot/keys/db/db.pem")
+		s.others = []*x509.Certificate{A}
+	case "fixture-hello-signed":
+		b, e := os.ReadFile(repo + "/tests/data/binary/HelloWorld.efi.signed")
+		if e != nil {
+			return nil, e
+		}
+		p, e := authenticode.Parse(bytes.NewReader(b))
+		if e != nil {
+			return nil, e
+		}
+		sigs, e := p.Signatures()
+		if e != nil || len(sigs) == 0 {
+			return nil, fmt.Errorf("no signature in fixture: %v", e)
+		}
+		s.der = sigs[0].Certificate
+		s.cert = certFromPEMFile(repo + "/tests/data/signatures/secureboot/keys/db/db.pem")
+		s.others = []*x509.Certificate{A, certFromPEMFile(repo + "/tests/data/signatures/secureboot/keys/KEK/KEK.pem")}
 	default:
 		err = fmt.Errorf("unknown source %s", name)
 	}
@@ -325,7 +361,13 @@ func observeP7(der []byte, cert *x509.Certificate, pub any) (M, bool) {
 
 func runP7Mut(sc M) {
 	id := sc["sc"]
-	src, err := p7SourceOf(str(sc, "source"))
+	var src *p7Source
+	var err error
+	if str(sc, "tool") != "" {
+		src, err = thirdPartySource(sc)
+	} else {
+		src, err = p7SourceOf(str(sc, "source"))
+	}
 	if err != nil {
 		emit(M{"sc": id, "ev": "call-end", "skip": true, "agree": true, "why": err.Error(), "source": str(sc, "source")})
 		return
@@ -372,6 +414,50 @@ func runP7Mut(sc M) {
 		})
 		cases = append(cases, M{"obs": obs, "lib": verdict(ok, verr, o), "cert": ci, "panic": o.Panic})
 	}
-	emit(M{"sc": id, "ev": "call-end", "call": "p7mut", "source": src.name, "mutation": what, "cases": cases, "projected": true})
+	out := M{"sc": id, "ev": "call-end", "call": "p7mut", "source": src.name, "mutation": what, "cases": cases, "projected": true, "parse_ok": true, "marshal_equal": true}
+	if what == "unchanged" {
+		// C16: third-party blob parses, and re-encoding the parsed attributes reproduces the signed bytes
+		callStart(id, "Parse+Marshal", nil)
+		o, _ := guard(func() error {
+			p, err := pkcs7.ParsePKCS7(mut)
+			out["parse_ok"] = err == nil
+			if err != nil {
+				return nil
+			}
+			pb, perr := projectP7(mut)
+			eq := perr == nil && len(pb.Signers) == len(p.SignerInfo)
+			for i := 0; eq && i < len(pb.Signers); i++ {
+				if !pb.Signers[i].HasAttrs {
+					eq = p.SignerInfo[i].AuthenticatedAttributes == nil
+					continue
+				}
+				eq = p.SignerInfo[i].AuthenticatedAttributes != nil && bytes.Equal(p.SignerInfo[i].AuthenticatedAttributes.Marshal(), setOf(pb.Signers[i].AttrsRaw))
+			}
+			out["marshal_equal"] = eq
+			return nil
+		})
+		if o.Kind == "panic" {
+			out["parse_ok"] = false
+			out["panic"] = o.Panic
+		}
+	}
+	emit(out)
 	_ = asn1.NullBytes
+}
+
+// thirdPartySource produces a blob with the OpenSSL CLI for a TLC-chosen producer configuration (C16).
+func thirdPartySource(sc M) (*p7Source, error) {
+	var flags []string
+	for _, f := range list(sc, "flags") {
+		flags = append(flags, f.(string))
+	}
+	key, issuer, serial := str(sc, "key"), str(sc, "issuer"), str(sc, "serial")
+	content := prbytes(fmt.Sprint("c16:", sc["sc"]), num(sc, "size"))
+	der, err := opensslSign(str(sc, "tool"), flags, key, issuer, serial, content)
+	if err != nil {
+		return nil, err
+	}
+	s := &p7Source{name: fmt.Sprintf("openssl %s %v", str(sc, "tool"), flags), der: der, cert: testCert(key, issuer, serial),
+		others: []*x509.Certificate{testCert("k3", "i2", "s2"), testCert("k2", issuer, serial)}, content: content}
+	return s, nil
 }
